@@ -65,4 +65,19 @@ def accepts (cmd : String) (p : Bytes) : Option Bool :=
   | "txfilter" => some ((skip 1 p).bind (readVarBytes maxTxFilterLoadDataSize)).isSome
   | _ => none
 
+/-- the fixed-layout decoders of the DPoS network (`dpos/p2p/msg`); `version` depends on a global
+    payload version and stays an oracle value. -/
+def acceptsDpos (cmd : String) (p : Bytes) : Option Bool :=
+  match cmd with
+  | "ping" | "pong" => some (skip 8 p).isSome          -- uint64 nonce
+  | "inv" | "getblock" | "req_pro" => some (skip 32 p).isSome   -- one Uint256
+  | "get_blc" => some (skip 8 p).isSome                 -- two uint32 heights
+  | "req_con" => some (skip 4 p).isSome                 -- uint32 height
+  | "verack" => some (skip 64 p).isSome                 -- 64-byte signature
+  | "addr" =>                                            -- var-string host, uint16 port
+    some (match readVarUint p with
+      | .error _ => false
+      | .ok (count, r) => if count > maxVarStringLength then false else ((skip count r).bind (skip 2)).isSome)
+  | _ => none
+
 end ElaVerif.P2PMsg
